@@ -166,9 +166,19 @@ def worker(args_):
     try:
         with time_limit(200), contextlib.redirect_stdout(io.StringIO()), contextlib.redirect_stderr(io.StringIO()):
             # --- path A: to_function
-            B = CS.build_rockit(case, rockit, with_solver=False)
+            hosted = bool(case.get("hosted"))
+
+            def build():
+                # hosted: the OCP is a sub-stage of a master Ocp; to_function / solver / solve go through the master
+                if hosted:
+                    master_ = rockit.Ocp()
+                    B_ = CS.build_rockit(case, rockit, with_solver=False, factory=master_.stage)
+                    return B_, master_
+                B_ = CS.build_rockit(case, rockit, with_solver=False)
+                return B_, B_.ocp
+            B, master = build()
             ocp = B.ocp
-            ocp.solver(*SOLVER)
+            master.solver(*SOLVER)
             apply_calls0(B, ocp, case, ca)
             out["inputs"] = engine.impl_inputs(B, case)
             fargs, fvals = [], []
@@ -195,16 +205,16 @@ def worker(args_):
                 pr = B.objs["p"][case["refetch"]["idx"]]
                 declared = ca.DM(engine_param_value(B, case, case["refetch"]["idx"])).reshape(pr.shape)
                 ocp.set_value(pr, ca.DM([float(Fr(v)) for v in case["refetch"]["old"]]).reshape(pr.shape))
-                ocp.to_function("f", fargs, [r for _, r in res])       # first request (discarded)
+                master.to_function("f", fargs, [r for _, r in res])       # first request (discarded)
                 ocp.set_value(pr, declared)
-            f = ocp.to_function("f", fargs, [r for _, r in res])
+            f = master.to_function("f", fargs, [r for _, r in res])
             fo = f.call(fvals)
             out["tf"] = [(nm, np.array(v).reshape(-1, order="F").tolist()) for (nm, _), v in zip(res, fo)]
             out["shapes"] = [(nm, list(np.atleast_2d(np.array(v)).shape)) for (nm, _), v in zip(res, fo)]
             # --- path B: imperative pipeline on a fresh OCP with the same current values
-            B2 = CS.build_rockit(case, rockit, with_solver=False)
+            B2, master2 = build()
             o2 = B2.ocp
-            o2.solver(*SOLVER)
+            master2.solver(*SOLVER)
             apply_calls0(B2, o2, case, ca)
             for a in case["args"]:
                 if a["what"] == "pcat":
@@ -234,9 +244,11 @@ def worker(args_):
                     else:
                         o2.set_initial(s, val[0] if a["len"] == 1 else val)
             try:
-                sol = o2.solve()
+                sol = master2.solve()
             except Exception:
-                sol = o2.non_converged_solution
+                sol = master2.non_converged_solution
+            if hosted:
+                sol = sol(o2)
             res2 = result_exprs(B2, case, ca, lambda e, g: sol.sample(e, grid=g)[1], lambda e: sol.value(e))
             out["pipe"] = []
             for (nm, v), (_, shp) in zip(res2, out["shapes"]):
@@ -424,6 +436,8 @@ def gen_cases(seed, n, opts):
             elif a["what"] == "pcat":
                 listed.update(a["idxs"])
         free = [k for k, d in enumerate(c["params"]) if d.get("grid", "") == "" and k not in listed]
+        if i % 4 == 1:
+            c["hosted"] = True
         if i % 3 == 0 and free and "param" not in c.get("T", {}) and "param" not in c.get("t0", {}):
             k = rng.choice(free)
             d = c["params"][k]
